@@ -22,7 +22,7 @@ A_SIM = [
 CHECKS = {
     "C01": {
         "level": "exploration",
-        "rule": "rapid stateful generation over drawn resource graphs (models/collections, shared children, cycles, self references, error child, soft references, data values, one query resource): 1-3 clients with drawn protocol versions subscribe/unsubscribe/get/call-with-resource, answers in any order, mutate-and-announce incl. reference changes, custom/delete/reaccess/query events, silent mutations + system.reset; EOH epilogue answers everything and resets dirty resources; oracle: every client copy (built only from frames) equals the state the reference service last announced, per protocol-version encoding. Non-trivial = a state event reached the gateway while a client held the resource AND (answers out of request order | reference changed | reset/query derived events | resource shared by >=2 clients); distinct by script hash",
+        "rule": "rapid stateful generation over drawn resource graphs (models/collections, shared children, cycles, self references, error child, soft references, data values, one query resource): 1-3 clients with drawn protocol versions subscribe/unsubscribe/get/call-with-resource, answers in any order, mutate-and-announce incl. reference changes, custom/delete/reaccess/query events, silent mutations + system.reset; EOH epilogue answers everything and resets dirty resources; oracle: every client copy (built only from frames) equals the state the reference service last announced, per protocol-version encoding. Change events may introduce two references at once; aliasing bursts in the event profile. Non-trivial = a state event reached the gateway while a client held the resource AND (answers out of request order | reference changed | reset/query derived events | resource shared by >=2 clients); distinct by script hash",
         "assumptions": A_SIM,
         "parts": [sim(300, 5000)],
     },
@@ -34,7 +34,7 @@ CHECKS = {
     },
     "C03": {
         "level": "exploration",
-        "rule": "C01 generator with dense sequence-numbered custom events around queue/unqueue causes (loading references, access re-checks, query-event locks, reset re-fetches); oracle: per client/rid/holding episode the custom sequence numbers form a contiguous run of the sequence delivered to the gateway, no event before the hand-over, model change events never repeated back-to-back, and the episode open at EOH reaches the last delivered event. An event for a resource that no response or event has ever carried to the client is a violation (a get response shows resources, it does not hand them over). Non-trivial = an episode received >=3 custom events; distinct by script hash",
+        "rule": "C01 generator with dense sequence-numbered custom events around queue/unqueue causes (loading references, access re-checks, query-event locks, reset re-fetches); oracle: per client/rid/holding episode the custom sequence numbers form a contiguous run of the sequence delivered to the gateway, no event before the hand-over, model change events never repeated back-to-back, and the episode open at EOH reaches the last delivered event. An event for a resource that no response or event has ever carried to the client is a violation (a get response shows resources, it does not hand them over). A held resource that has received none of its custom events is owed every one that reached the gateway after its hand-over. One change event may introduce two references. Non-trivial = an episode received >=3 custom events; distinct by script hash",
         "assumptions": A_SIM,
         "parts": [sim(300, 5000)],
     },
@@ -46,13 +46,13 @@ CHECKS = {
     },
     "C05": {
         "level": "exploration",
-        "rule": "rapid stateful generation of call/new over WebSocket and POST/PUT/DELETE over HTTP on subscribed (cached verdict) and unsubscribed resources with call lists whose entries are prefixes/suffixes of the methods, token events, reaccess events and matching resets at any step; oracle over the boundary log: every call.* request has a governing access answer of that connection granting the method (* or exact list entry) that no trigger invalidated before the decision step; a granted call is not refused; every access/call/auth payload carries the connection's most recent token. Methods include names with commas (valid in a method, an entry of no list). Unit part: Access.CanCall against the split oracle for generated lists and methods, including the whole list and runs of its entries as the method. HTTP POST methods with an escaped dot; token events without the token member. Non-trivial = a trigger lies between the access request and a call decided on its cached answer (sim), a list entry that contains or is contained in the method (unit); distinct by script hash",
+        "rule": "rapid stateful generation of call/new over WebSocket and POST/PUT/DELETE over HTTP on subscribed (cached verdict) and unsubscribed resources with call lists whose entries are prefixes/suffixes of the methods, token events, reaccess events and matching resets at any step; oracle over the boundary log: every call.* request has a governing access answer of that connection granting the method (* or exact list entry) that no trigger invalidated before the decision step; a granted call is not refused; every access/call/auth payload carries the connection's most recent token. Methods include names with commas (valid in a method, an entry of no list). Unit part: Access.CanCall against the split oracle for generated lists and methods, including the whole list and runs of its entries as the method. HTTP POST methods with an escaped dot; token events without the token member. A fifth of the configurations use headerAuth; token events go to the connection of an HTTP request that is being served, and must be received (nothing may stop listening before the request is answered). Non-trivial = a trigger lies between the access request and a call decided on its cached answer (sim), a list entry that contains or is contained in the method (unit); distinct by script hash",
         "assumptions": A_SIM,
         "parts": [sim(300, 5000), unit("C05-cancall", 40000, 400000)],
     },
     "C06": {
         "level": "exploration",
-        "rule": "rapid stateful generation of token events (repeated, null), reaccess events and system.reset access patterns at every step relative to loading, queued events and pending re-checks, with dense custom events; oracle: for each trigger and each (connection, rid) directly subscribed: an access re-request with the current token follows, a non-grant verdict yields an unsubscribe event with that reason in the verdict's step, and no custom event that reached the gateway after the trigger is framed before the verdict. At the quiescent end no subscription still holds events back waiting for a verdict (hook queue flag). Non-trivial = events reached the gateway inside a re-check window; distinct by script hash",
+        "rule": "rapid stateful generation of token events (repeated, null), reaccess events and system.reset access patterns at every step relative to loading, queued events and pending re-checks, with dense custom events; oracle: for each trigger and each (connection, rid) directly subscribed: an access re-request with the current token follows, a non-grant verdict yields an unsubscribe event with that reason in the verdict's step, and no custom event that reached the gateway after the trigger is framed before the verdict. At the quiescent end no subscription still holds events back waiting for a verdict (hook queue flag). A trigger that arrives while the subscription already waits for an earlier re-check needs an access request of its own (the pending one carries the old token). Non-trivial = events reached the gateway inside a re-check window; distinct by script hash",
         "assumptions": A_SIM + ["no obligation is asserted for a token event that follows a null token"],
         "parts": [sim(300, 5000)],
     },
@@ -106,7 +106,7 @@ CHECKS = {
     },
     "C10": {
         "level": "exploration",
-        "rule": "rapid stateful generation with 2-4 WebSocket connections plus HTTP requests, distinct tokens and token ids, {cid} tags in resource names, in the middle of names, in queries and in references returned by the service, token events, token resets, events on per-connection resources; oracle over the logs: requests caused by a connection's own frame/request/token event carry that connection's id, every access/call/auth payload carries that connection's current token, no subject or query made for one connection contains another connection's id, no frame or HTTP body sent to any client contains any connection id, events on a {cid} resource reach only its owner, a token reset produces exactly one auth request per connection whose token id is listed; plus the applicability oracle of C02. Token resets also name the empty token id (which addresses nobody). Events on a connection's subject other than the token event (nothing happens, whatever the payload). Non-trivial = >= 2 connections, a {cid} resource in use and a token-related event; distinct by script hash",
+        "rule": "rapid stateful generation with 2-4 WebSocket connections plus HTTP requests, distinct tokens and token ids, {cid} tags in resource names, in the middle of names, in queries and in references returned by the service, token events, token resets, events on per-connection resources; oracle over the logs: requests caused by a connection's own frame/request/token event carry that connection's id, every access/call/auth payload carries that connection's current token, no subject or query made for one connection contains another connection's id, no frame or HTTP body sent to any client contains any connection id, events on a {cid} resource reach only its owner, a token reset produces exactly one auth request per connection whose token id is listed; plus the applicability oracle of C02. Token resets also name the empty token id (which addresses nobody). Events on a connection's subject other than the token event (nothing happens, whatever the payload). HTTP response headers (the Location of a resource response) are scanned for connection ids as well. Non-trivial = >= 2 connections, a {cid} resource in use and a token-related event; distinct by script hash",
         "assumptions": A_SIM + ["cid leakage is a substring scan: a transformed cid would not be recognised"],
         "parts": [sim(300, 5000)],
     },
@@ -118,13 +118,13 @@ CHECKS = {
     },
     "C20": {
         "level": "fault_enumeration",
-        "rule": "rapid generates base histories (3-12 ops after an optional prologue; idle connections, outstanding subscribe/get/call requests, pending evictions with a 20 ms delay); for each base of n ops and each fault in {Stop(nil), loss of the messaging connection (closed handler invoked from its own goroutine)}, n+1 variants inject the fault before op k in a fresh gateway, followed by a WebSocket dial, an HTTP GET, Start, a new connection subscribing, and the final Stop; oracle: every client socket reads EOF in the fault's step, the stop channel delivers the cause (nil / the lost-connection error), the dial after the fault is not upgraded, the HTTP request gets 503, Stop returns (a Stop that has not returned after 30 s is a deadlock), nothing crashes (journal), no goroutine is left behind, and the restarted service serves the subscribe. After the restart a second fault (loss or Stop, alternating) strikes and the service is started once more: every fault cycle is held to the statement. A fifth of the cases listen on real loopback ports (API, and metrics in half of them): the ports refuse connections after every fault and accept them after every Start. Fault kind restart (Stop and Start in one step); Stop and loss also race the answers of outstanding calls. Non-trivial = a service request or client request was outstanding when the fault struck; distinct by variant script hash",
+        "rule": "rapid generates base histories (3-12 ops after an optional prologue; idle connections, outstanding subscribe/get/call requests, pending evictions with a 20 ms delay); for each base of n ops and each fault in {Stop(nil), loss of the messaging connection (closed handler invoked from its own goroutine)}, n+1 variants inject the fault before op k in a fresh gateway, followed by a WebSocket dial, an HTTP GET, Start, a new connection subscribing, and the final Stop; oracle: every client socket reads EOF in the fault's step, the stop channel delivers the cause (nil / the lost-connection error), the dial after the fault is not upgraded, the HTTP request gets 503, Stop returns (a Stop that has not returned after 30 s is a deadlock), nothing crashes (journal), no goroutine is left behind, and the restarted service serves the subscribe. After the restart a second fault (loss or Stop, alternating) strikes and the service is started once more: every fault cycle is held to the statement. A fifth of the cases listen on real loopback ports (API, and metrics in half of them): the ports refuse connections after every fault and accept them after every Start. Fault kind restart (Stop and Start in one step); Stop and loss also race the answers of outstanding calls. Clients may stop reading their socket (the connection worker then sits in a write when the fault strikes): no frame reaches such a client after Stop has returned. Non-trivial = a service request or client request was outstanding when the fault struck; distinct by variant script hash",
         "assumptions": A_SIM + ["base histories contain no HTTP request outstanding at the fault (the 3 s / 5 s shutdown constants cannot be shortened)", "TLS is not exercised; real listeners only in the fifth of the cases that listen on loopback"],
         "parts": [sim(18, 190, qtimeout=300)],
     },
     "C18": {
         "level": "exploration",
-        "rule": "the unmodified nats/nats.go adapter against a scriptable fake NATS server on loopback that enforces the control-line limit exactly as nats-server 2.6.6 does (argument part of PUB/HPUB/SUB > 4096 bytes => -ERR and connection closed); rapid generates 5-40 concurrent requests per case, each with a wire behaviour (one reply, several replies, silence, late reply, timeout pre-response followed by reply / silence / a second pre-response, empty 503, reply racing the deadline, subjects of every length in a band around the limit and far beyond with payload sizes of 1-5 digits), an event burst on a subscription, a long namespace Subscribe, and a server disconnect; oracle: exactly one completion per request, of a kind the behaviour allows, never a timeout earlier than the configured or extended deadline (one-sided), subjects that cannot fit complete with subjectTooLong and are never written, the server never has to drop the connection, events arrive in publish order and none after Unsubscribe returned, disconnect invokes the closed handler. Event payloads take every shape a service may publish (null, true, bare words, pre-response look-alikes, empty); the server also drops the connection while 1-5 requests are pending (one optionally after a pre-response): each completes exactly once without Close. Loss of the connection with replies buffered behind a held listener, then Close (as the gateway does): no crash (the case in progress is recorded so that a crash of the process is attributed), no double completion. Non-trivial = the case mixes >= 3 behaviours incl. a pre-response or a race; distinct by case hash",
+        "rule": "the unmodified nats/nats.go adapter against a scriptable fake NATS server on loopback that enforces the control-line limit exactly as nats-server 2.6.6 does (argument part of PUB/HPUB/SUB > 4096 bytes => -ERR and connection closed); rapid generates 5-40 concurrent requests per case, each with a wire behaviour (one reply, several replies, silence, late reply, timeout pre-response followed by reply / silence / a second pre-response, empty 503, reply racing the deadline, subjects of every length in a band around the limit and far beyond with payload sizes of 1-5 digits), an event burst on a subscription, a long namespace Subscribe, and a server disconnect; oracle: exactly one completion per request, of a kind the behaviour allows, never a timeout earlier than the configured or extended deadline (one-sided), subjects that cannot fit complete with subjectTooLong and are never written, the server never has to drop the connection, events arrive in publish order and none after Unsubscribe returned, disconnect invokes the closed handler. Event payloads take every shape a service may publish (null, true, bare words, pre-response look-alikes, empty); the server also drops the connection while 1-5 requests are pending (one optionally after a pre-response): each completes exactly once without Close. Loss of the connection with replies buffered behind a held listener, then Close (as the gateway does): no crash (the case in progress is recorded so that a crash of the process is attributed), no double completion. Malformed timeout pre-responses (not a number, empty, overflowing) followed by silence leave the timeout in force. Non-trivial = the case mixes >= 3 behaviours incl. a pre-response or a race; distinct by case hash",
         "assumptions": ["real time: the only time-based verdicts are one-sided (a timeout earlier than the deadline)", "the fake server implements the subset of the NATS client protocol the adapter uses; its control-line rule was read from nats-server 2.6.6 parser.go"],
         "parts": [{"engine": "natsrig", "test": "TestAdapter", "prop": "C18", "quick": {"cases": 14, "shards": 16, "timeout": 120}, "thorough": {"cases": 150, "shards": 16, "timeout": 1200}}],
     },
